@@ -352,6 +352,10 @@ func c04Nest(shape string, depth int) []byte {
 		b.WriteString(strings.Repeat(`{"type":"Note","tag":[`, depth) + `"https://example.com/x"` + strings.Repeat("]}", depth))
 	case "maps":
 		b.WriteString(`{"type":"Note","nameMap":` + strings.Repeat(`{"en":`, depth) + `"x"` + strings.Repeat("}", depth) + `}`)
+	case "activity-core":
+		b.WriteString(strings.Repeat(`{"type":"Create","inReplyTo":`, depth) + `"https://example.com/x"` + strings.Repeat("}", depth))
+	case "actor-core":
+		b.WriteString(strings.Repeat(`{"type":"Person","attachment":[`, depth) + `"https://example.com/x"` + strings.Repeat("]}", depth))
 	case "collection":
 		b.WriteString(strings.Repeat(`{"type":"OrderedCollection","orderedItems":[`, depth) + strings.Repeat("]}", depth))
 	}
@@ -380,7 +384,7 @@ func TestC04(t *testing.T) {
 		shape string
 		depth int
 	}{}
-	for _, sh := range []string{"arrays", "objects", "lists", "maps", "collection"} {
+	for _, sh := range []string{"arrays", "objects", "lists", "maps", "collection", "activity-core", "actor-core"} {
 		for _, d := range []int{1, 2, 10, 100, 299, 300, 301, 1000, 20000, 200000} {
 			nestCells = append(nestCells, struct {
 				shape string
@@ -410,16 +414,20 @@ func TestC04(t *testing.T) {
 				data = c04Nest(c.shape, c.depth)
 			}
 			var ds []keyed
+			info := fmt.Sprintf("%s depth %d (%d bytes)", c.shape, c.depth, len(data))
 			for _, n := range nestEntries {
 				if e, ok := entryByName[n]; ok {
-					d, _ := c04Call(e, data, true)
+					d, oc := c04Call(e, data, true)
 					for _, x := range d {
 						x.Key += fmt.Sprintf(" nesting:%s", c.shape)
 						ds = append(ds, x)
 					}
+					if oc == "hang" {
+						return ds, "RESTART after a hang: " + info // the hung call keeps running: later measurements in this process would be polluted
+					}
 				}
 			}
-			return ds, fmt.Sprintf("%s depth %d (%d bytes)", c.shape, c.depth, len(data))
+			return ds, info
 		})
 		return
 	}
